@@ -1,88 +1,120 @@
 (* C07 property statements (front end only - PARTIAL); proofs live in Proofs/C07.v.
 
-   What is proved: on the declarative domain of Spec/C07Spec.v (front_safe) the model of the front end
-   - TryFrom<&syn::Type>, rename_all_to_case, get_field_decorators, parse_struct / parse_enum /
-   parse_type_alias / parse_const, the visitor, parser::parse - never reaches a partial operation
-   (outcome is Ok or Err, never Panic), and every annotated item is either generated or recorded as an
-   error.  Termination of the model is by construction (structural recursion; the one fuelled loop,
-   TargetOsIterator, is shown to have enough fuel in Props/C13.v).
+   What is proved: the model of the front end - TryFrom<&syn::Type>, rename_all_to_case,
+   get_field_decorators, parse_struct / parse_enum / parse_type_alias / parse_const, the visitor,
+   parser::parse - NEVER reaches a partial operation (outcome is Ok or Err, never Panic), for every
+   input: since the /repo fixes of parser.rs:287 / :445 / :737, rust_types.rs:366-383 and rename.rs:22
+   there is no domain hypothesis and no recorded class.  parser::parse always returns a ParsedData in
+   which every annotated item is either generated or recorded as an error; the edge inputs that used to
+   panic and must be diagnosed (Spec/C07Spec.v: containers without type arguments, empty tuple structs /
+   variants) are errors, and a file containing one has a non-empty error list.  Termination of the model
+   is by construction (structural recursion; the one fuelled loop, TargetOsIterator, is shown to have
+   enough fuel in Props/C13.v).
 
    What is NOT proved (exercised by checks/c07.py on the real binary and recorded in
    KNOWN_FINDINGS.jsonl only):
      - the six back ends' partial operations: kotlin.rs:183 and swift.rs:268 (todo!() for consts),
-       scala.rs:131 (no package), go.rs:313 / go.rs:315 (byte-slicing of content key / enum name),
+       scala.rs:131 (no package), go.rs:315 (byte-slicing of the enum name),
        go.rs:301, go.rs:594, python.rs:368, typescript.rs:137, typescript.rs:276;
      - topsort's dependency recursion (Model/Topsort.v fuel exhaustion = real stack overflow);
      - multi-file mode: visitors.rs:401 (`use foo;`), import reconciliation;
-     - the CLI: directory walk, reading files, the collector thread and the send().unwrap() race
-       (cli/src/parse.rs), writing output;
+     - the CLI: directory walk, reading files, the collector thread (cli/src/parse.rs), writing output;
      - what no model exhibits: real dead-locks, stack depth, OS errors. *)
 From Coq Require Import String.
 From TS Require Import Model.Str Model.Outcome Model.Unicode Model.Syntax Model.Attrs Model.Rename Model.Types Model.Parse.
 From TS Require Import Spec.TargetOsRule Spec.C03Spec Spec.C07Spec.
 From TS Require Proofs.FrontItems Proofs.C07.
-Definition refuted_at (it : item) (site : string) : Prop :=
-  Proofs.C07.is_leaf_item it = true /\ leaf_safe uc_exec (fun _ => None) [] it = false /\
-  Proofs.FrontItems.parse_leaf uc_exec (fun _ => None) [] it = Panic site.
 
-(* a type expression in which every Vec / Option / smart pointer has a type argument and every HashMap
-   two - at any depth - is translated without panic *)
-Theorem C07_type_parser_panic_free :
-  forall t : ty, ty_safe t = true -> is_panic (parse_ty t) = false.
-Proof. exact Proofs.C07.ty_safe_no_panic. Qed.
-Print Assumptions C07_type_parser_panic_free.
+(* every type expression is translated or rejected, never a panic *)
+Theorem C07_type_parser_never_panics :
+  forall t : ty, is_panic (parse_ty t) = false.
+Proof. exact Proofs.C07.parse_ty_never_panics. Qed.
+Print Assumptions C07_type_parser_never_panics.
 
-(* for every Unicode table, rule string and identifier: renaming does not panic unless the rule is
-   camelCase and the identifier has no non-underscore character or its first one is not ASCII *)
-Theorem C07_rename_panic_free :
+(* a type expression in which some Vec / Option / smart pointer lacks its type argument or some HashMap
+   has fewer than two - at any depth - is rejected with an error (the inputs of rust_types.rs:366-383) *)
+Theorem C07_incomplete_type_is_error :
+  forall t : ty, ty_complete t = false -> exists e, parse_ty t = Err e.
+Proof. exact Proofs.C07.incomplete_type_is_error. Qed.
+Print Assumptions C07_incomplete_type_is_error.
+
+(* for every Unicode table, rule string and identifier: renaming never panics *)
+Theorem C07_rename_never_panics :
   forall (uc : unicode) (rule : option str) (ident : str),
-    rename_safe rule ident = true -> is_panic (rename_all_to_case uc ident rule) = false.
-Proof. exact Proofs.C07.rename_safe_no_panic. Qed.
-Print Assumptions C07_rename_panic_free.
+    is_panic (rename_all_to_case uc ident rule) = false.
+Proof. exact Proofs.C07.rename_never_panics. Qed.
+Print Assumptions C07_rename_never_panics.
 
-(* ... and that carve-out is exact: to_camel_case panics on precisely those identifiers *)
-Theorem C07_camel_case_panics_exactly :
+(* to_camel_case returns the PascalCase form with its first CHARACTER ASCII-lowered: the empty form
+   (`__`) stays empty, a non-ASCII first character is left alone *)
+Theorem C07_camel_case_value :
   forall s : str,
-    is_panic (to_camel_case s) = negb (match first_significant s with Some c => N.ltb c 128%N | None => false end).
-Proof. exact Proofs.C07.camel_panics_iff. Qed.
-Print Assumptions C07_camel_case_panics_exactly.
+    to_camel_case s = Ok (match to_pascal_case s with [] => [] | c :: r => alower c :: r end).
+Proof. exact Proofs.C07.camel_case_value. Qed.
+Print Assumptions C07_camel_case_value.
 
-(* field decorators: no panic when every nested typeshare(name(..)) list names a language *)
-Theorem C07_decorators_panic_free :
-  forall (uc : unicode) (attrs : list attr),
-    decorators_safe uc attrs = true -> is_panic (get_field_decorators uc attrs) = false.
-Proof. exact Proofs.C07.decorators_safe_no_panic. Qed.
-Print Assumptions C07_decorators_panic_free.
+(* field decorators never panic, whatever nested typeshare(..) lists the attributes carry *)
+Theorem C07_decorators_never_panic :
+  forall (uc : unicode) (attrs : list attr), is_panic (get_field_decorators uc attrs) = false.
+Proof. exact Proofs.C07.decorators_never_panic. Qed.
+Print Assumptions C07_decorators_never_panic.
 
-(* each annotated struct / enum / alias / const that is leaf_safe parses without panic, under the
-   hypothesis that the code's skip decision is the documented one (C13) ... *)
-Theorem C07_leaf_panic_free :
+(* each annotated struct / enum / alias / const parses without panic: every Unicode table, every
+   serialized_as re-parser, every --target-os list *)
+Theorem C07_leaf_never_panics :
+  forall (uc : unicode) (tstr : str -> option ty) (T : list str) (it : item),
+    Proofs.C07.is_leaf_item it = true ->
+    is_panic (Proofs.FrontItems.parse_leaf uc tstr T it) = false.
+Proof. exact Proofs.C07.leaf_never_panics. Qed.
+Print Assumptions C07_leaf_never_panics.
+
+(* MAIN (partial: front end only): parser::parse never panics and always returns, at any nesting depth
+   of modules / functions / impls, for every file, Unicode table, serialized_as re-parser and
+   --target-os list - no hypothesis *)
+Theorem C07_front_end_never_panics_partial :
+  forall (uc : unicode) (tstr : str -> option ty) (T : list str) (f : file),
+    is_panic (parse_file uc tstr T f) = false.
+Proof. exact Proofs.C07.parse_file_never_panics. Qed.
+Print Assumptions C07_front_end_never_panics_partial.
+
+Theorem C07_front_end_total_partial :
+  forall (uc : unicode) (tstr : str -> option ty) (T : list str) (f : file),
+    exists r, parse_file uc tstr T f = Ok r.
+Proof. exact Proofs.C07.parse_file_total. Qed.
+Print Assumptions C07_front_end_total_partial.
+
+(* diagnosed, not dropped (1): an annotated item with an incomplete container type or an empty tuple
+   struct / variant in a non-skipped position ends in an error; hypothesis: the code's skip decision
+   is the documented one (C13) ... *)
+Theorem C07_incomplete_leaf_is_error :
   forall (uc : unicode) (tstr : str -> option ty) (T : list str),
     (forall attrs, is_skipped T attrs = skipped7 T attrs) ->
   forall it : item,
-    Proofs.C07.is_leaf_item it = true -> leaf_safe uc tstr T it = true ->
-    is_panic (Proofs.FrontItems.parse_leaf uc tstr T it) = false.
-Proof. exact Proofs.C07.leaf_safe_no_panic. Qed.
-Print Assumptions C07_leaf_panic_free.
+    Proofs.C07.is_leaf_item it = true -> leaf_complete uc tstr T it = false ->
+    exists e, Proofs.FrontItems.parse_leaf uc tstr T it = Err e.
+Proof. exact Proofs.C07.incomplete_leaf_is_error. Qed.
+Print Assumptions C07_incomplete_leaf_is_error.
 
 (* ... which holds outright without --target-os *)
-Theorem C07_leaf_panic_free_no_target :
+Theorem C07_incomplete_leaf_is_error_no_target :
   forall (uc : unicode) (tstr : str -> option ty) (it : item),
-    Proofs.C07.is_leaf_item it = true -> leaf_safe uc tstr [] it = true ->
-    is_panic (Proofs.FrontItems.parse_leaf uc tstr [] it) = false.
-Proof. exact Proofs.C07.leaf_safe_no_panic_no_target. Qed.
-Print Assumptions C07_leaf_panic_free_no_target.
+    Proofs.C07.is_leaf_item it = true -> leaf_complete uc tstr [] it = false ->
+    exists e, Proofs.FrontItems.parse_leaf uc tstr [] it = Err e.
+Proof. exact Proofs.C07.incomplete_leaf_is_error_no_target. Qed.
+Print Assumptions C07_incomplete_leaf_is_error_no_target.
 
-(* MAIN (partial: front end only): a file all of whose expected leaves are safe is parsed without
-   panic, at any nesting depth of modules / functions / impls, for every Unicode table and every
-   serialized_as re-parser; hypothesis: the code's --target-os decision is the documented rule *)
-Theorem C07_front_end_panic_free_partial :
+(* diagnosed, not dropped (2): the ParsedData of a file records at least as many errors as the file
+   has incomplete expected items (so the run ends with a diagnostic for that file, C03/C08_cli);
+   hypothesis: the code's --target-os decision is the documented rule *)
+Theorem C07_incomplete_file_is_diagnosed :
   forall (uc : unicode) (tstr : str -> option ty) (T : list str),
     (forall attrs, accepts T attrs = os_rule attrs T) ->
   forall f : file,
-    front_safe uc tstr T f = true -> is_panic (parse_file uc tstr T f) = false.
-Proof. exact Proofs.C07.front_safe_no_panic. Qed.
-Print Assumptions C07_front_end_panic_free_partial.
+    exists r, parse_file uc tstr T f = Ok r /\
+              (front_incomplete_leaves uc tstr T f <=
+               match r with Some pd => List.length (p_errors pd) | None => 0 end)%nat.
+Proof. exact Proofs.C07.incomplete_file_is_diagnosed. Qed.
+Print Assumptions C07_incomplete_file_is_diagnosed.
 
 (* the hypothesis is true for every attribute list whose cfg predicates parse (C13) ... *)
 Theorem C07_target_os_hypothesis_when_cfg_parses :
@@ -91,14 +123,16 @@ Proof. exact Proofs.C07.acc_when_cfg_parsable. Qed.
 Print Assumptions C07_target_os_hypothesis_when_cfg_parses.
 
 (* ... and for all attribute lists without --target-os, so there the result is unconditional *)
-Theorem C07_front_end_panic_free_no_target_partial :
+Theorem C07_incomplete_file_is_diagnosed_no_target :
   forall (uc : unicode) (tstr : str -> option ty) (f : file),
-    front_safe uc tstr [] f = true -> is_panic (parse_file uc tstr [] f) = false.
-Proof. exact Proofs.C07.front_safe_no_panic_no_target. Qed.
-Print Assumptions C07_front_end_panic_free_no_target_partial.
+    exists r, parse_file uc tstr [] f = Ok r /\
+              (front_incomplete_leaves uc tstr [] f <=
+               match r with Some pd => List.length (p_errors pd) | None => 0 end)%nat.
+Proof. exact Proofs.C07.incomplete_file_is_diagnosed_no_target. Qed.
+Print Assumptions C07_incomplete_file_is_diagnosed_no_target.
 
-(* output or diagnostic: when the visitor finishes, every expected leaf has been either pushed as
-   an item or recorded as an error (nothing is dropped silently) *)
+(* output or diagnostic: when the visitor finishes (it always does: C07_front_end_total_partial), every
+   expected leaf has been either pushed as an item or recorded as an error (nothing is dropped silently) *)
 Theorem C07_every_expected_item_accounted :
   forall (uc : unicode) (tstr : str -> option ty) (T : list str),
     (forall attrs, accepts T attrs = os_rule attrs T) ->
@@ -109,72 +143,82 @@ Theorem C07_every_expected_item_accounted :
 Proof. exact Proofs.C07.all_results_accounted. Qed.
 Print Assumptions C07_every_expected_item_accounted.
 
-(* the unrestricted statement is false of the faithful model: one witness per front-end panic site
-   (each: the item is outside the domain AND the model panics at exactly that site) *)
-(* #[typeshare] struct S(); *)
-Theorem C07_parser_287_refuted :
-  refuted_at (IStruct [Proofs.C07.a_ts] (lit "S") [] (FUnnamed [])) "parser.rs:287".
-Proof. exact Proofs.C07.C07_parser_287_refuted. Qed.
-Print Assumptions C07_parser_287_refuted.
-(* #[typeshare] #[serde(tag = "t", content = "c")] enum E { V() } *)
-Theorem C07_parser_445_refuted :
-  refuted_at (IEnum [Proofs.C07.a_ts; Proofs.C07.a_tagc] (lit "E") []
-                    [{| v_attrs := []; v_ident := lit "V"; v_fields := FUnnamed [] |}]) "parser.rs:445".
-Proof. exact Proofs.C07.C07_parser_445_refuted. Qed.
-Print Assumptions C07_parser_445_refuted.
-(* #[typeshare] struct S { #[typeshare(foo(bar))] a: u8 } *)
-Theorem C07_parser_737_refuted :
-  refuted_at (Proofs.C07.st1 [] (Proofs.C07.fld
-                [{| a_inner := false;
-                    a_meta := MList [lit "typeshare"] (Some [MList [lit "foo"] (Some [MPath [lit "bar"]]) (Some [(lit "bar", None)])]) None |}]
-                (lit "a") Proofs.C07.t_u8)) "parser.rs:737".
-Proof. exact Proofs.C07.C07_parser_737_refuted. Qed.
-Print Assumptions C07_parser_737_refuted.
-(* #[typeshare] struct S { a: Vec } *)
-Theorem C07_rust_types_366_refuted :
-  refuted_at (Proofs.C07.st1 [] (Proofs.C07.fld [] (lit "a") (TPath [] (lit "Vec") []))) "rust_types.rs:366".
-Proof. exact Proofs.C07.C07_rust_types_366_refuted. Qed.
-Print Assumptions C07_rust_types_366_refuted.
-(* a: Option *)
-Theorem C07_rust_types_369_refuted :
-  refuted_at (Proofs.C07.st1 [] (Proofs.C07.fld [] (lit "a") (TPath [] (lit "Option") []))) "rust_types.rs:369".
-Proof. exact Proofs.C07.C07_rust_types_369_refuted. Qed.
-Print Assumptions C07_rust_types_369_refuted.
-(* a: HashMap *)
-Theorem C07_rust_types_374_refuted :
-  refuted_at (Proofs.C07.st1 [] (Proofs.C07.fld [] (lit "a") (TPath [] (lit "HashMap") []))) "rust_types.rs:374".
-Proof. exact Proofs.C07.C07_rust_types_374_refuted. Qed.
-Print Assumptions C07_rust_types_374_refuted.
-(* a: HashMap<String> *)
-Theorem C07_rust_types_375_refuted :
-  refuted_at (Proofs.C07.st1 [] (Proofs.C07.fld [] (lit "a") (TPath [] (lit "HashMap") [Some (TPath [] (lit "String") [])])))
-             "rust_types.rs:375".
-Proof. exact Proofs.C07.C07_rust_types_375_refuted. Qed.
-Print Assumptions C07_rust_types_375_refuted.
-(* a: Cow<'static> - a lifetime argument is not a type argument *)
-Theorem C07_rust_types_383_refuted :
-  refuted_at (Proofs.C07.st1 [] (Proofs.C07.fld [] (lit "a") (TPath [] (lit "Cow") [None]))) "rust_types.rs:383".
-Proof. exact Proofs.C07.C07_rust_types_383_refuted. Qed.
-Print Assumptions C07_rust_types_383_refuted.
-(* #[serde(rename_all = "camelCase")] struct S { __: u8 } *)
-Theorem C07_rename_22_underscores_refuted :
-  refuted_at (Proofs.C07.st1 [Proofs.C07.a_camel] (Proofs.C07.fld [] (lit "__") Proofs.C07.t_u8)) "rename.rs:22".
-Proof. exact Proofs.C07.C07_rename_22_underscores_refuted. Qed.
-Print Assumptions C07_rename_22_underscores_refuted.
-(* #[serde(rename_all = "camelCase")] struct S { étoile: u8 } *)
-Theorem C07_rename_22_nonascii_refuted :
-  refuted_at (Proofs.C07.st1 [Proofs.C07.a_camel] (Proofs.C07.fld [] (233%N :: lit "toile") Proofs.C07.t_u8)) "rename.rs:22".
-Proof. exact Proofs.C07.C07_rename_22_nonascii_refuted. Qed.
-Print Assumptions C07_rename_22_nonascii_refuted.
+(* regression pins: the witnesses of the front-end panic sites fixed in /repo, and what they yield now
+   (each [diagnosed]: the item is a leaf, is in the class leaf_complete = false, and parses to exactly
+   this error) *)
+(* #[typeshare] struct S();   was a panic at parser.rs:287 *)
+Theorem C07_parser_287_fixed :
+  Proofs.C07.diagnosed (IStruct [Proofs.C07.a_ts] (lit "S") [] (FUnnamed [])) (EUnsupportedTypeP (lit "S()")).
+Proof. exact Proofs.C07.C07_parser_287_fixed. Qed.
+Print Assumptions C07_parser_287_fixed.
+(* #[typeshare] #[serde(tag = "t", content = "c")] enum E { V() }   was a panic at parser.rs:445 *)
+Theorem C07_parser_445_fixed :
+  Proofs.C07.diagnosed (IEnum [Proofs.C07.a_ts; Proofs.C07.a_tagc] (lit "E") []
+                          [{| v_attrs := []; v_ident := lit "V"; v_fields := FUnnamed [] |}]) (EUnsupportedTypeP (lit "V()")).
+Proof. exact Proofs.C07.C07_parser_445_fixed. Qed.
+Print Assumptions C07_parser_445_fixed.
+(* #[typeshare] struct S { #[typeshare(foo(bar))] a: u8 }   was a panic at parser.rs:737: the list is ignored -
+   no decorator, and the struct parses exactly as without the attribute *)
+Theorem C07_parser_737_fixed :
+  get_field_decorators uc_exec [Proofs.C07.a_foo_bar] = Ok [] /\
+  is_ok (Proofs.FrontItems.parse_leaf uc_exec Proofs.C07.no_tstr []
+           (Proofs.C07.st1 [] (Proofs.C07.fld [Proofs.C07.a_foo_bar] (lit "a") Proofs.C07.t_u8))) = true /\
+  Proofs.FrontItems.parse_leaf uc_exec Proofs.C07.no_tstr [] (Proofs.C07.st1 [] (Proofs.C07.fld [Proofs.C07.a_foo_bar] (lit "a") Proofs.C07.t_u8)) =
+  Proofs.FrontItems.parse_leaf uc_exec Proofs.C07.no_tstr [] (Proofs.C07.st1 [] (Proofs.C07.fld [] (lit "a") Proofs.C07.t_u8)).
+Proof. exact Proofs.C07.C07_parser_737_fixed. Qed.
+Print Assumptions C07_parser_737_fixed.
+(* #[typeshare] struct S { a: Vec }   was a panic at rust_types.rs:366 *)
+Theorem C07_rust_types_366_fixed :
+  Proofs.C07.diagnosed (Proofs.C07.st1 [] (Proofs.C07.fld [] (lit "a") (TPath [] (lit "Vec") []))) (EUnsupportedType [lit "Vec"]).
+Proof. exact Proofs.C07.C07_rust_types_366_fixed. Qed.
+Print Assumptions C07_rust_types_366_fixed.
+(* a: Option   (rust_types.rs:369) *)
+Theorem C07_rust_types_369_fixed :
+  Proofs.C07.diagnosed (Proofs.C07.st1 [] (Proofs.C07.fld [] (lit "a") (TPath [] (lit "Option") []))) (EUnsupportedType [lit "Option"]).
+Proof. exact Proofs.C07.C07_rust_types_369_fixed. Qed.
+Print Assumptions C07_rust_types_369_fixed.
+(* a: HashMap   (rust_types.rs:374) *)
+Theorem C07_rust_types_374_fixed :
+  Proofs.C07.diagnosed (Proofs.C07.st1 [] (Proofs.C07.fld [] (lit "a") (TPath [] (lit "HashMap") []))) (EUnsupportedType [lit "HashMap"]).
+Proof. exact Proofs.C07.C07_rust_types_374_fixed. Qed.
+Print Assumptions C07_rust_types_374_fixed.
+(* a: HashMap<String>   (rust_types.rs:375) *)
+Theorem C07_rust_types_375_fixed :
+  Proofs.C07.diagnosed (Proofs.C07.st1 [] (Proofs.C07.fld [] (lit "a") (TPath [] (lit "HashMap") [Some (TPath [] (lit "String") [])])))
+                       (EUnsupportedType [lit "HashMap"]).
+Proof. exact Proofs.C07.C07_rust_types_375_fixed. Qed.
+Print Assumptions C07_rust_types_375_fixed.
+(* a: Cow<'static> - a lifetime argument is not a type argument   (rust_types.rs:383) *)
+Theorem C07_rust_types_383_fixed :
+  Proofs.C07.diagnosed (Proofs.C07.st1 [] (Proofs.C07.fld [] (lit "a") (TPath [] (lit "Cow") [None]))) (EUnsupportedType [lit "Cow"]).
+Proof. exact Proofs.C07.C07_rust_types_383_fixed. Qed.
+Print Assumptions C07_rust_types_383_fixed.
+(* #[serde(rename_all = "camelCase")] struct S { __: u8 }   was a panic at rename.rs:22: the empty wire name *)
+Theorem C07_rename_22_underscores_fixed :
+  Proofs.C07.field_names_of (Proofs.FrontItems.parse_leaf uc_exec Proofs.C07.no_tstr []
+     (Proofs.C07.st1 [Proofs.C07.a_camel] (Proofs.C07.fld [] (lit "__") Proofs.C07.t_u8))) = Some [[]].
+Proof. exact Proofs.C07.C07_rename_22_underscores_fixed. Qed.
+Print Assumptions C07_rename_22_underscores_fixed.
+(* { étoile: u8 } -> étoile;  { Étoile_du_nord: u8 } -> ÉtoileDuNord (a non-ASCII first character is left alone) *)
+Theorem C07_rename_22_nonascii_fixed :
+  Proofs.C07.field_names_of (Proofs.FrontItems.parse_leaf uc_exec Proofs.C07.no_tstr []
+     (Proofs.C07.st1 [Proofs.C07.a_camel] (Proofs.C07.fld [] (233%N :: lit "toile") Proofs.C07.t_u8))) = Some [233%N :: lit "toile"] /\
+  Proofs.C07.field_names_of (Proofs.FrontItems.parse_leaf uc_exec Proofs.C07.no_tstr []
+     (Proofs.C07.st1 [Proofs.C07.a_camel] (Proofs.C07.fld [] (201%N :: lit "toile_du_nord") Proofs.C07.t_u8))) = Some [201%N :: lit "toileDuNord"].
+Proof. exact Proofs.C07.C07_rename_22_nonascii_fixed. Qed.
+Print Assumptions C07_rename_22_nonascii_fixed.
 
-(* the hypotheses are satisfiable: a file with a camelCase struct, nested containers, skipped and
-   unannotated copies of the panic triggers, an enum inside a module with all three variant kinds, an
-   alias and a const is front_safe, has 5 expected leaves and parses to 5 items and no error *)
+(* non-vacuity: a file with a camelCase struct, nested containers, skipped and unannotated copies of
+   the former panic triggers, three LIVE ones (empty tuple struct, Vec<Box>, HashMap<u8>), an enum inside
+   a module with all three variant kinds and an ignored typeshare(foo(bar)) list, an alias and a negated
+   const has 8 expected leaves, 3 of them incomplete, and parses to 8 accounted items of which exactly
+   those 3 are recorded errors *)
 Theorem C07_nonvacuous_witness :
-  front_safe uc_exec Proofs.C07.no_tstr [] Proofs.C07.nonvacuous_file = true /\
-  List.length (expected_leaves [] Proofs.C07.nonvacuous_file) = 5%nat /\
+  List.length (expected_leaves [] Proofs.C07.nonvacuous_file) = 8%nat /\
+  front_incomplete_leaves uc_exec Proofs.C07.no_tstr [] Proofs.C07.nonvacuous_file = 3%nat /\
   match parse_file uc_exec Proofs.C07.no_tstr [] Proofs.C07.nonvacuous_file with
-  | Ok (Some pd) => Proofs.FrontItems.count_items pd = 5%nat /\ p_errors pd = []
+  | Ok (Some pd) => Proofs.FrontItems.count_items pd = 8%nat /\
+                    p_errors pd = [EUnsupportedTypeP (lit "Empty()"); EUnsupportedType [lit "Box"]; EUnsupportedType [lit "HashMap"]]
   | _ => False
   end.
 Proof. exact Proofs.C07.C07_nonvacuous. Qed.
